@@ -28,7 +28,7 @@ MANIFEST = dict(
 def gen_script(rng):
     """a fault script: phases + user resets; returns (phases, resets[(t, label)])"""
     kind = rng.choice(["healthy", "blackout-start", "blackout-mid", "blackout-mid-long", "rferr-mid", "handshake-loss", "reset-steady",
-                       "reset-in-connect", "reset-in-discovery", "lossy-mid", "double-blackout", "slow-handshake-then-blackout"])
+                       "reset-in-connect", "reset-in-discovery", "reset-twice", "lossy-mid", "double-blackout", "slow-handshake-then-blackout"])
     P, R = [], []
     if kind == "healthy":
         pass
@@ -56,7 +56,11 @@ def gen_script(rng):
     elif kind == "reset-in-connect":
         R = [(rng.choice([0.45, 0.62, 0.75, 0.85]), "connect")]
     elif kind == "reset-in-discovery":
-        R = [(rng.choice([0.05, 0.15, 0.3]), "discovery")]
+        R = [(rng.choice([0.02, 0.05, 0.1, 0.15, 0.3]), "discovery")]
+    elif kind == "reset-twice":
+        # two resets in quick succession (a second Reconnect press): the second lands in the locate phase started after the first
+        t0 = rng.choice([5.0, 12.0])
+        R = [(t0, "steady"), (t0 + rng.choice([0.05, 0.1, 0.15, 0.25, 0.4, 0.6]), "again")]
     return kind, P, R
 
 
@@ -189,7 +193,7 @@ def run(ctx):
     nontrivial = set()
     scripts = []
     base_kinds = ["blackout-start", "blackout-mid-long", "reset-in-connect", "rferr-mid", "handshake-loss", "reset-steady",
-                  "slow-handshake-then-blackout"]
+                  "slow-handshake-then-blackout", "reset-in-discovery", "reset-twice"]
     for i in range(n):
         k, P, R = gen_script(rng)
         scripts.append((k, P, R))
@@ -197,12 +201,18 @@ def run(ctx):
     import random as _r
     for bk in base_kinds:
         if not any(k == bk for k, _, _ in scripts):
-            rr = _r.Random(hash(bk) & 0xffff)
+            import zlib
+            rr = _r.Random(zlib.crc32(bk.encode()) & 0xffff)      # stable across processes (str hashes are salted)
             while True:
                 k, P, R = gen_script(rr)
                 if k == bk:
                     scripts.append((k, P, R))
                     break
+    # the narrow windows are swept completely: a reset at each offset into the first discovery, a second reset at each distance
+    for t in (0.02, 0.05, 0.1, 0.15, 0.2, 0.3):
+        scripts.append(("reset-in-discovery", [], [(t, "discovery")]))
+    for dt in (0.05, 0.1, 0.15, 0.25, 0.4, 0.6):
+        scripts.append(("reset-twice", [], [(5.0, "steady"), (5.0 + dt, "again")]))
     for n_s, (k, P, R) in enumerate(scripts):
         yielding = n_s % 2 == 1
         inp = {"kind": k, "phases": P, "resets": R, "yielding": yielding}
